@@ -29,7 +29,8 @@ SlabOK(t) ==
   IN /\ got = SlabRows(UcPts(t), s.lo, s.hi, t.n)
      /\ Len(s.rows) = Cardinality(got)
      /\ s.n_uc = Len(t.uc.rows) /\ s.n_cells = ncell
-     /\ \A i \in DOMAIN s.rows : \A c \in Idx : s.rows[i].fl[c] = 0
+     \* (that a slab atom's float lies inside the cell it is listed under is not demanded: the sum of a coordinate a hair below 1
+     \*  and its cell number may round to the next integer; which site it is is decided on the grid, modulo the lattice)
      /\ \A i \in DOMAIN s.rows :
           \E j \in DOMAIN t.uc.rows :
              /\ t.uc.rows[j].asym = s.rows[i].asym
